@@ -821,6 +821,13 @@ class Interp:
         h = self.prims.get(name)
         if h is not None:
             return h(self, args, kw, node)
+        if name in ("np.array", "np.asarray") and args and "dtype" in kw:
+            d = kw["dtype"]
+            static_int = (d[0] == "mod" and d[1].split(".")[-1] in ("int32", "int64", "int16", "int8", "uint8", "uint32", "int_")) or d == ("builtin", "int")
+            in_problem = self.cls is None or any(k.name == "Problem" for k in self.ct.mro(self.cls))
+            if not (static_int and in_problem):
+                inner = ("app", "array", (args[0],)) if args[0][0] == "tuple" else args[0]
+                return ("app", "astype", (inner, d))  # a converting constructor is a cast
         if name in ("np.array", "np.asarray") and args and args[0][0] == "tuple":
             return ("app", "array", (args[0],))
         if name in TRANSPARENT and args:
@@ -1162,7 +1169,10 @@ class Interp:
         if ax and len(ax) == len(dims) and all(d in self.axis_sizes.get(a, ()) for a, d in zip(ax, dims)):
             return recv  # reshape to the shape the value already has
         if len(dims) == 2 and dims[0] == K(-1) and dims[1] == ONE:
-            return recv
+            # column-vector form of a space: value-transparent for problems / utilities; in a solver a
+            # rank change silently alters later broadcasting, so it stays visible
+            if self.cls is None or any(k.name == "Problem" for k in self.ct.mro(self.cls)):
+                return recv
         if len(dims) == 3 and all(d[0] == "app" and d[1] == "shape" for d in dims):
             srcs = {d[2][0] for d in dims}
             idxs = [d[2][1] for d in dims]
